@@ -116,6 +116,73 @@ func c08Scenarios(tier string) []*Scenario {
 			scs[len(scs)-1].EnvCmdOut = map[string]string{"envcmd-e": "e\n"}
 		}
 	}
+	// requests that name a replica after a scale request has renamed it (a -> a-0 when scaling 1 -> 2): the running
+	// instance answers to its new name and to no other
+	for _, rq := range []string{"start(a-0)", "stop(a-0)", "restart(a-0)", "stop(a)", "start(a)"} {
+		rq := rq
+		op, name := strings.SplitN(rq, "(", 2)[0], strings.TrimSuffix(strings.SplitN(rq, "(", 2)[1], ")")
+		up := func(w *World) bool { return w.launches["a#0"] > 0 }
+		scaled := func(w *World) bool { return w.launches["a#1"] > 0 }
+		sc := &Scenario{ID: "c08-renamed-" + rq, YAML: projectYAML(nil, PC{Name: "a"}, PC{Name: "x"}),
+			Procs: map[string]*ProcScript{"a": {}, "x": {}}, K: 0, EnvCost: 1, TickBudget: 3, Idle: 15 * time.Second,
+			API: [][]APICall{{{Op: "scale", Name: "a", N: 2, When: up}, {Op: op, Name: name, When: scaled}}}}
+		sc.Check = func(w *World) []Violation {
+			var vs []Violation
+			tr := w.pre()
+			if len(w.apiRes) < 2 || !w.apiRes[1].Done || w.apiRes[0].Err != nil {
+				return nil
+			}
+			reqErr := w.apiRes[1].Err
+			req := findEvent(tr, 0, func(e Event) bool { return e.Kind == "api-call" && e.Data == rq })
+			alive, maxAlive, startsAfter, exitsAfter := 0, 0, 0, 0
+			for i, e := range tr {
+				if e.Proc != "a#0" {
+					continue
+				}
+				switch e.Kind {
+				case "start":
+					alive++
+					if alive > maxAlive {
+						maxAlive = alive
+					}
+					if i > req {
+						startsAfter++
+					}
+				case "exit":
+					alive--
+					if i > req {
+						exitsAfter++
+					}
+				}
+			}
+			if maxAlive > 1 {
+				vs = append(vs, viol("C08", "two-instances:"+op+"@renamed", "%d commands of replica 0 alive at once after %s (the replica had been renamed a -> a-0 by scaling)", maxAlive, rq))
+			}
+			settled := w.Outcome == "stuck" || w.Outcome == "completed"
+			switch rq {
+			case "start(a-0)":
+				if reqErr == nil {
+					vs = append(vs, viol("C08", "start-while-active:renamed", "start(a-0) returned nil although replica 0 is running under that name"))
+				}
+			case "stop(a-0)":
+				if reqErr != nil {
+					vs = append(vs, viol("C08", "stop-refused:renamed", "stop(a-0) failed (%v) although replica 0 is running under that name", reqErr))
+				} else if settled && exitsAfter == 0 {
+					vs = append(vs, viol("C08", "stop-ineffective:renamed", "stop(a-0) returned nil but the command of replica 0 never exited"))
+				}
+			case "restart(a-0)":
+				if reqErr == nil && settled && (exitsAfter != 1 || startsAfter != 1) {
+					vs = append(vs, viol("C08", "restart-count:renamed", "restart(a-0): %d exits and %d launches of replica 0 afterwards, want one of each", exitsAfter, startsAfter))
+				}
+			case "stop(a)", "start(a)":
+				if reqErr == nil || startsAfter+exitsAfter > 0 {
+					vs = append(vs, viol("C08", "unknown-name-effect:"+op+":renamed", "%s names no process any more (a is a-0 now): error=%v, %d launches and %d exits of replica 0 followed", rq, reqErr, startsAfter, exitsAfter))
+				}
+			}
+			return vs
+		}
+		scs = append(scs, sc)
+	}
 	// unknown names
 	ph := c08Phases()[0]
 	for _, o := range ops {
